@@ -71,6 +71,12 @@ var c10Cases = []c10Case{
 	{doc: "{a @q}", forbid: "a"},
 	{doc: "query @d {a}", forbid: "a"},
 	{doc: "{a @d(§:1)}", offender: 2, forbid: "a"},
+	// the defective selection shares its response key with an earlier valid one
+	{doc: "{a a(§:1)}", offender: 2, named: true},
+	{doc: "{t: a t: §}", offender: 1, named: true},
+	{doc: "{s(n:1) s}"},
+	{doc: "{s(n:1) ...F} fragment F on Query{s}"},
+	{doc: "{a o{a} ...on Query{o{a(§:1)}}}", offender: 2, named: true},
 	// undefined type condition
 	{doc: "{a ...on §{a}}", offender: 4},
 	{doc: "{a ...F} fragment F on §{a}", offender: 4},
